@@ -23,19 +23,25 @@ RULE = (
     "scope trees up to N nodes (inline / spawned children) x per node own logger y/n x trace id "
     "{not given, own, empty string} x name in {'a', '', '100%', '%s', '%(x)s', 'a b'}; at every position (outside before, "
     "inside every node before/after its children, outside after) one call per level {debug, "
-    "info, warning, error} x (message,args) in 4 forms x optional exception; non-trivial = the "
+    "info, warning, error} x (message,args) in 5 forms x optional exception; non-trivial = the "
     "call is made inside a nested scope, or the name / message needs %-handling"
 )
 ASSUMPTIONS = [
     "records are captured by a handler on the root logger (loggers propagate); logger identity = record.name",
-    "a message whose own format and arguments agree: 'm', 'm %s'%(x,), '%d+%s'%(1,'y'), '%(k)s'%{'k':1}",
+    "a message whose own format and arguments agree: 'm', 'm %s'%(x,), '%d+%s'%(1,'y'), '%(k)s'%{'k':1}, '100% sure' without arguments",
 ]
 BOUNDS = {"quick": {"N": 2, "names": 6}, "thorough": {"N": 3, "names_for_3": ["a", "%s"]}}
 EXHAUSTIVE = {"quick": True, "thorough": True}
 SAMPLE_EVERY = {"quick": 300, "thorough": 1500}
 
 NAMES = ["a", "", "100%", "%s", "%(x)s", "a b"]
-FORMS = [("MSG m", ()), ("MSG m %s", ("x",)), ("MSG %d+%s", (1, "y")), ("MSG %(k)s", ({"k": 1},))]
+FORMS = [
+    ("MSG m", ()),
+    ("MSG m %s", ("x",)),
+    ("MSG %d+%s", (1, "y")),
+    ("MSG %(k)s", ({"k": 1},)),
+    ("MSG 100% sure", ()),  # no arguments: logging does not format, '%' stays literal
+]
 LEVELS = [("debug", logging.DEBUG), ("info", logging.INFO), ("warning", logging.WARNING), ("error", logging.ERROR)]
 
 _root = logging.getLogger()
